@@ -43,6 +43,9 @@ mod val;
 
 pub mod stdlib;
 
+#[cfg(resynth_verif)]
+pub mod verif;
+
 #[cfg(test)]
 mod test;
 
